@@ -4,6 +4,13 @@
 // Since the repair of setEstimateSize (186525a) an allocated design matrix always has estimateSize_ columns; the
 // harness still checks this before touching J_ and answers `shape-mismatch ...` instead of running into a heap
 // overflow, so that a regression shows up as a clean outcome (the model never produces that token).
+//
+// How the caller-side references are held (seeded change c07f: a "normal equations up to date" flag cleared by the NON-CONST
+// accessors): the harness must not call a non-const accessor behind the protocol's back.  Every inspection (bounds, shapes,
+// ls.peek) goes through the CONST accessors; `ls.row` / `ls.w` call the non-const getJ()/getY() / getW() afresh for each line
+// (a caller that re-fetches), `ls.rowk` / `ls.wk` write through references obtained ONCE, right after construction, and kept
+// for the life of the object (a caller that keeps `auto & J = ls.getJ()` across resizes and solves — the references are to
+// the members, which stay in place when Eigen reallocates their storage).  Estimates call nothing but the estimate.
 #include <memory>
 #include "proto.hpp"
 #include "romea_core_common/regression/leastsquares/LeastSquares.hpp"
@@ -17,6 +24,12 @@ struct Solver
   std::unique_ptr<LeastSquares<T>> ls;
   int est = 0;       // mirror of estimateSize_ (private)
   int n = 0;         // mirror of dataSize_ (private)
+  typename LeastSquares<T>::Matrix * Jk = nullptr;   // references obtained once per object (see the header comment)
+  typename LeastSquares<T>::Vector * Yk = nullptr;
+  typename LeastSquares<T>::Vector * Wk = nullptr;
+
+  const LeastSquares<T> & c() const { return *ls; }   // const view: inspections must not look like caller writes
+  void keep() { Jk = &ls->getJ(); Yk = &ls->getY(); Wk = &ls->getW(); }
 
   static size_t nat(const std::string & s, size_t maxv)
   {
@@ -25,26 +38,26 @@ struct Solver
 
   bool create(const Toks & t)
   {
-    if (t.size() == 2) { ls.reset(new LeastSquares<T>()); est = 0; n = 0; return true; }
+    if (t.size() == 2) { ls.reset(new LeastSquares<T>()); est = 0; n = 0; keep(); return true; }
     if (t.size() == 3) {
       size_t e = nat(t[2], 64); if (e < 1) { throw vp::BadOp(); }
-      ls.reset(new LeastSquares<T>(e)); est = static_cast<int>(e); n = 0; return true;
+      ls.reset(new LeastSquares<T>(e)); est = static_cast<int>(e); n = 0; keep(); return true;
     }
     if (t.size() == 4) {
       size_t e = nat(t[2], 64); size_t d = nat(t[3], 100000); if (e < 1) { throw vp::BadOp(); }
-      ls.reset(new LeastSquares<T>(e, d)); est = static_cast<int>(e); n = static_cast<int>(d); return true;
+      ls.reset(new LeastSquares<T>(e, d)); est = static_cast<int>(e); n = static_cast<int>(d); keep(); return true;
     }
     return false;
   }
 
-  bool shapeOk() const { return est >= 1 && n <= ls->getY().rows(); }
+  bool shapeOk() const { return est >= 1 && n <= c().getY().rows(); }
 
   // empty when J_ has the shape the solver is about to assume, else the outcome token
   std::string shapeMismatch() const
   {
-    if (ls->getY().rows() > 0 && (ls->getJ().cols() != est || ls->getJ().rows() != ls->getY().rows())) {
-      return "shape-mismatch J=" + std::to_string(ls->getJ().rows()) + "x" + std::to_string(ls->getJ().cols()) +
-             " Y=" + std::to_string(ls->getY().rows()) + " est=" + std::to_string(est);
+    if (c().getY().rows() > 0 && (c().getJ().cols() != est || c().getJ().rows() != c().getY().rows())) {
+      return "shape-mismatch J=" + std::to_string(c().getJ().rows()) + "x" + std::to_string(c().getJ().cols()) +
+             " Y=" + std::to_string(c().getY().rows()) + " est=" + std::to_string(est);
     }
     return "";
   }
@@ -67,22 +80,23 @@ struct Solver
       bool g = ls->setDataSize(static_cast<size_t>(d)); n = static_cast<int>(d);
       return std::string("grew ") + (g ? "1" : "0");
     }
-    if (op == "ls.row" && t.size() >= 2) {
+    if ((op == "ls.row" || op == "ls.rowk") && t.size() >= 2) {
       uint64_t i = vp::parseU(t[1]);
       std::vector<T> v; for (size_t k = 2; k < t.size(); ++k) { v.push_back(vp::parseF<T>(t[k])); }
-      if (est == 0 || v.size() != static_cast<size_t>(est) + 1 || static_cast<long long>(i) >= ls->getY().rows()) {
+      if (est == 0 || v.size() != static_cast<size_t>(est) + 1 || static_cast<long long>(i) >= c().getY().rows()) {
         throw vp::BadOp();
       }
       if (!shapeMismatch().empty()) { return shapeMismatch(); }
-      auto & J = ls->getJ(); auto & Y = ls->getY();
+      const bool kept = (op == "ls.rowk");
+      auto & J = kept ? *Jk : ls->getJ(); auto & Y = kept ? *Yk : ls->getY();
       for (int c = 0; c < est; ++c) { J(static_cast<int>(i), c) = v[c]; }
       Y(static_cast<int>(i)) = v[est];
       return "ok";
     }
-    if (op == "ls.w" && t.size() == 3) {
+    if ((op == "ls.w" || op == "ls.wk") && t.size() == 3) {
       uint64_t i = vp::parseU(t[1]); T w = vp::parseF<T>(t[2]);
-      if (static_cast<long long>(i) >= ls->getW().rows()) { throw vp::BadOp(); }
-      ls->getW()(static_cast<int>(i)) = w; return "ok";
+      if (static_cast<long long>(i) >= c().getW().rows()) { throw vp::BadOp(); }
+      (op == "ls.wk" ? *Wk : ls->getW())(static_cast<int>(i)) = w; return "ok";
     }
     if (op == "ls.pre" || op == "ls.pre1") {
       std::vector<T> v; for (size_t k = 1; k < t.size(); ++k) { v.push_back(vp::parseF<T>(t[k])); }
@@ -110,11 +124,11 @@ struct Solver
     }
     if (op == "ls.peek" && t.size() == 2) {
       uint64_t i = vp::parseU(t[1]);
-      if (est == 0 || static_cast<long long>(i) >= ls->getY().rows()) { throw vp::BadOp(); }
+      if (est == 0 || static_cast<long long>(i) >= c().getY().rows()) { throw vp::BadOp(); }
       if (!shapeMismatch().empty()) { return shapeMismatch(); }
       std::string o = "row";
-      for (int c = 0; c < est; ++c) { o += " " + vp::fmtF(ls->getJ()(static_cast<int>(i), c)); }
-      o += " " + vp::fmtF(ls->getY()(static_cast<int>(i))) + " " + vp::fmtF(ls->getW()(static_cast<int>(i)));
+      for (int k = 0; k < est; ++k) { o += " " + vp::fmtF(c().getJ()(static_cast<int>(i), k)); }
+      o += " " + vp::fmtF(c().getY()(static_cast<int>(i))) + " " + vp::fmtF(c().getW()(static_cast<int>(i)));
       return o;
     }
     throw vp::BadOp();
